@@ -32,14 +32,18 @@ def run_check(pid: str, tier: str, root: str, write=True, quiet=False) -> int:
         chk.errors.append(str(e))
     except Exception:  # a traceback is an analysis error, never a violation
         chk.errors.append("internal error: " + traceback.format_exc().replace("\n", " | "))
-    rc = chk.finish()
-    if rc == 0 and tier == "thorough" and write and os.environ.get("C3STATIC_NO_SELFTEST") != "1":
-        from .selftest import run_selftest
+    st = 0
+    if tier == "thorough" and os.environ.get("C3STATIC_NO_SELFTEST") != "1" and root == "/repo":
+        # both-ways self-test of this property's rules (one-edit variants on a scratch overlay)
+        from . import selftest
 
-        st = run_selftest([pid])
-        if st != 0:
-            print(f"ANALYSIS-ERROR property={pid} checker self-test failed (a seeded one-edit variant was missed or a behaviour-preserving twin was flagged)")
-            return 2
+        st = selftest.run_selftest([pid])
+        chk.extra["selftest"] = selftest.LAST_STATS
+        chk.t0 -= 0  # wall time includes the self-test
+    rc = chk.finish()
+    if rc == 0 and st != 0:
+        print(f"ANALYSIS-ERROR property={pid} checker self-test failed (a seeded one-edit variant was missed or a behaviour-preserving twin was flagged)")
+        return 2
     return rc
 
 
